@@ -91,7 +91,8 @@ MUTANTS = [
     ("c13-set-and-restore", "C13", S, "            config = self.json_config.copy()\n            config.version = 1.0",
      "            config = self.json_config.copy()\n            config.version = 1.0\n            self.json_config.user_agent = self.json_config.user_agent",
      "serving writes an attribute of the server Config (same value): only the write trap sees it"),
-    ("c13-copy-shares-classes", "C13", C, "        new_config.classes = self.classes.copy()", "        new_config.classes = self.classes", "copy shares the classes table"),
+    ("c13-copy-shares-classes", "C13", C, "        new_config.classes = LocalClasses(self.classes)", "        new_config.classes = self.classes", "copy shares the classes table"),
+    ("c13-copy-classes-plain-dict-reverted", "C13", C, "        new_config.classes = LocalClasses(self.classes)", "        new_config.classes = self.classes.copy()", "a copied Config loses classes.add() again"),
     ("c14-notification-keeps-null-id", "C14", J, "        if self.version >= 2:\n            del request[\"id\"]\n        else:", "        if self.version > 2:\n            del request[\"id\"]\n        else:",
      "2.0 notifications carry id null"),
     ("c14-params-always-emitted", "C14", J, "        if params or self.version < 1.1:", "        if params is not None or self.version < 1.1:", "2.0 requests carry empty params"),
@@ -112,7 +113,13 @@ MUTANTS = [
      "server Content-Length counts characters"),
     ("c17-query-dropped-for-unix", "C17", J, "        if use_unix:\n            unix_path = self.__handler\n            self.__handler = \"/\"", "        if use_unix:\n            unix_path = self.__handler\n            self.__handler = \"/\"\n            self.__query_string = \"\"",
      "unix+http URLs lose their query string"),
-    ("c17-any-scheme", "C17", J, "        if schema not in (\"http\", \"https\"):", "        if not schema.startswith((\"http\", \"ws\")):", "ws:// accepted"),
+    ("c17-any-scheme", "C17", J, "        if schema not in (\"http\", \"https\") or (use_unix and schema != \"http\"):", "        if not schema.startswith((\"http\", \"ws\")) or (use_unix and schema != \"http\"):", "ws:// accepted"),
+    ("c17-unix-https-check-reverted", "C17", J, "        if schema not in (\"http\", \"https\") or (use_unix and schema != \"http\"):", "        if schema not in (\"http\", \"https\"):", "unix+https accepted again with a caller-supplied transport"),
+    ("c03-late-conversion-check-reverted", "C03", S, "            jsonrpclib.jdumps(result, self.encoding)\n            return result", "            return result", "results refused by the encoder collapse the reply again"),
+    ("c02-nonfinite-id-check-reverted", "C02", S, "    if isinstance(rpcid, float) and (\n        rpcid != rpcid or rpcid in (float(\"inf\"), float(\"-inf\"))\n    ):", "    if False:", "ids beyond the double range echoed as Infinity again"),
+    ("c06-multicall-single-error-reverted", "C06", J, "        elif isinstance(responses, utils.DictType):\n            # The server answered the whole batch with a single object: this\n            # is the way errors concerning the batch itself are reported\n            check_for_errors(responses)\n", "", "MultiCall raises KeyError/TypeError for a whole-batch error object again"),
+    ("c14-fault-forced-id-zero-reverted", "C14", J, "        if rpcid is not None and rpcid != \"\":\n            # 0 is a valid request ID\n            self.rpcid = rpcid\n\n        return dumps(", "        if rpcid:\n            self.rpcid = rpcid\n\n        return dumps(", "Fault.response(rpcid=0) answers id null again"),
+    ("c07-string-slots-reverted", "C07", K, "        if isinstance(slots, utils.STRING_TYPES):\n            # A single slot can be declared with its name only\n            slots = (slots,)\n", "", "__slots__ = 'value' iterated by characters again"),
     ("c17-per-chunk-decode-reverted", "C17", S, "                chunks.append(raw_chunk)\n                size_remaining -= len(raw_chunk)\n\n            # Decode the whole body at once: a multi-byte character can be\n            # split between two chunks\n            data = utils.from_bytes(b\"\".join(chunks))",
      "                chunks.append(utils.from_bytes(raw_chunk))\n                size_remaining -= len(raw_chunk)\n            data = \"\".join(chunks)", "per-chunk decoding is back"),
     ("c18-oldest-wins", "C18", J, "        for headers in self.additional_headers:\n            for key, value in headers.items():", "        for headers in reversed(self.additional_headers):\n            for key, value in headers.items():",
